@@ -42,7 +42,7 @@ static void oracle_rel(const vcfg *c, const uint8_t *f, size_t n) {
 #else
         if (in.j < n)
 #endif
-            V_ASSERT(rel_has[s] && rel_byte[s] == f[in.j], "C02,C09,C17: transmitted bytes identical in both worlds (every byte determined by frames received and configuration)");
+            V_ASSERT(rel_has[s] && rel_byte[s] == f[in.j], "C02,C04,C09,C17: transmitted bytes identical in both worlds (every byte determined by frames received and configuration)");
 #if REL_MODE != 4     /* with two interfaces copying payloads the global copy record cannot be attributed; header and length are still compared */
         V_ASSERT(rel_mc_calls[s] == mc_calls && rel_mc_n[s] == mc_n && rel_mc_off[s] == mc_off, "C02,C09,C17: same payload source range in both worlds");
 #endif
